@@ -17,4 +17,4 @@ META = {
 def TASKS(tier):
     fan_out = [t for t in end_tasks(tier, 'fan_out', ('routing',))
                if t.params['strategy'] == 'All' or len(t.params['blocks']) > 1]
-    return zip_tasks(tier, 'zip') + fan_out + route_tasks(tier, 'route')
+    return zip_tasks(tier, 'zip') + fan_out + route_tasks(tier, 'route') + merge_tasks(tier, 'merge')
